@@ -16,7 +16,7 @@ LEVEL_TEXT = ("Static structural proof of necessary conditions: (R14.1) the 17 s
               "(schema, entry, attribute) call made by the runner; (R14.3) the three per-section passes iterate the "
               "section enum itself; (R14.4) error-context push/pop balanced. That released schemas pass and that a "
               "seeded fault is detected at every position are NOT decided.")
-LEVEL_EXTRA = "Added after the seeded evaluation: (R14.5) known/unknown of an attribute is decided against the valid-attribute table of the entry's own section. (R14.6) no issue list is discarded inside the compliance modules. (R14.7) attribute validators are skipped for attributes the entry's section does not declare. Added after the hunting pass: (R14.8) the key tested for an existing tag is one of the registered forms (a known finding today: repeated '#' children); (R14.9) per-library tables are consulted with the entry's own inLibrary value; (R14.10) NaN takes the conversion-factor report; (R14.11) the character pass guards the str use of raw attribute values. (R14.12) a deprecatedFrom equal to the schema version takes the report; (R14.13) the unknown-attribute report is conditional on nothing but the unknown attributes; (R14.14) default units are looked up on the entry under validation; (R14.15) schema_version_for_library can answer with withStandard; (R14.16) the inLibrary report is guarded by the membership test alone. (R14.17) the missing-item report of item_exists_check depends on the item lookup alone. (R14.18) the previous entry is looked up in the section of the entry under validation."
+LEVEL_EXTRA = "Added after the seeded evaluation: (R14.5) known/unknown of an attribute is decided against the valid-attribute table of the entry's own section. (R14.6) no issue list is discarded inside the compliance modules. (R14.7) attribute validators are skipped for attributes the entry's section does not declare. Added after the hunting pass: (R14.8) the key tested for an existing tag is one of the registered forms (a known finding today: repeated '#' children); (R14.9) per-library tables are consulted with the entry's own inLibrary value; (R14.10) NaN takes the conversion-factor report; (R14.11) the character pass guards the str use of raw attribute values. (R14.12) a deprecatedFrom equal to the schema version takes the report; (R14.13) the unknown-attribute report is conditional on nothing but the unknown attributes; (R14.14) default units are looked up on the entry under validation; (R14.15) schema_version_for_library can answer with withStandard; (R14.16) the inLibrary report is guarded by the membership test alone. (R14.17) the missing-item report of item_exists_check depends on the item lookup alone. (R14.18) the previous entry is looked up in the section of the entry under validation. (R14.19) a parameter is handed on to every repository callee that takes a parameter of the same name (11 frozen exceptions package-wide)."
 
 SIG = ["hed_schema", "tag_entry", "attribute_name"]
 
@@ -562,6 +562,11 @@ def run(ctx):
                       "and properties are looked up among the tags, so a changed hedId on them is never compared (and `foot`/`point` "
                       "are matched against the tags Foot/Point)", desc="previous entry looked up in the entry's own section")
     ctx.floor("R14.18", "previous-release lookups in verify_tag_id", n18, 1)
+
+    # ---------------- R14.19: parameters are handed on to same-named parameters of repository callees
+    from sa.forward import check_forwarding
+    nfw = check_forwarding(ctx, "R14.19", [f for f in prog.functions.values() if f.module.name.startswith(('hed.schema.schema_compliance', 'hed.schema.schema_attribute_validators', 'hed.schema.schema_attribute_validator_hed_id', 'hed.schema.schema_validation_util'))], 'e.g. the warnings switch, the error handler')
+    ctx.floor("R14.19", "same-named parameter sites", nfw, 1)
 
 
 def _unpack_names(node):
